@@ -53,6 +53,12 @@ def run(F, rep, tier):
     import engines
     engines.order_preserved(F, rep, "ORDER-PRESERVED", ["sylt_compiler::name_resolution::"],
                             ["sylt_compiler::name_resolution::"], 20)
+    # a correct annotation resolves: the names in it are looked up where types live, before the binders of the same
+    # signature are in scope, and a path through namespaces is followed namespace by namespace
+    import c09
+    c09.annotation_before_binder(F, rep)
+    import c12
+    c12.chained_namespace(F, rep, "ANNOTATION-RESOLVES")
     erased_return_type(F, rep)
     checker_annotation_blind(F, rep)
     annotation_is_a_fresh_instance(F, rep)
